@@ -340,6 +340,15 @@ func genIPBytes(rng *rand.Rand) []byte {
 		}
 		return append(append([]byte{}, full...), make([]byte, k-len(full))...)
 	}
+	if rng.IntN(8) == 0 {
+		// near-mapped: the IPv4-mapped prefix with one of its twelve bytes changed (a plain IPv6
+		// address that a sloppy "is it mapped?" test takes for IPv4), and the exact mapped form
+		b := append([]byte{0, 0, 0, 0, 0, 0, 0, 0, 0, 0, 0xff, 0xff}, byte(rng.IntN(256)), byte(rng.IntN(256)), byte(rng.IntN(256)), byte(rng.IntN(256)))
+		if rng.IntN(4) != 0 {
+			b[rng.IntN(12)] ^= byte(pick(rng, 0x01, 0x80, 0xff, 0x10))
+		}
+		return b
+	}
 	b := make([]byte, n)
 	switch rng.IntN(4) {
 	case 0:
@@ -479,6 +488,26 @@ func genC05(rng *rand.Rand, tier string) (cases []string) {
 		}
 	}
 	foreign = append(foreign, "1234", "host-101", "0192", "a100", "x199", "25500", "1255", "9.1234", "-200")
+	// ip6.arpa names of IPv4-mapped (and near-mapped) addresses, full and cut to 24..31 labels:
+	// the result must stay an IPv6 prefix of 4k bits
+	for i := 0; i < 40; i++ {
+		b := append([]byte{0, 0, 0, 0, 0, 0, 0, 0, 0, 0, 0xff, 0xff}, byte(rng.IntN(256)), byte(rng.IntN(256)), byte(rng.IntN(256)), byte(rng.IntN(256)))
+		if i%4 == 3 {
+			b[rng.IntN(12)] ^= byte(pick(rng, 0x01, 0x80, 0xff))
+		}
+		a, _ := netip.AddrFromSlice(b)
+		full := nibblePTR(a)
+		labels := strings.Split(full, ".")
+		cut := pick(rng, 0, 0, 1, 2, 4, 7, 8)
+		s := strings.Join(labels[cut:], ".")
+		if rng.IntN(3) == 0 {
+			s = mixCase(s)
+		}
+		if rng.IntN(3) == 0 {
+			s += "."
+		}
+		cases = append(cases, arpaCase("C05.prefix", s), arpaCase("C05.extract", s), arpaCase("C05.extract", "host."+s))
+	}
 	for kk := 0; kk < 8; kk++ {
 		k := 1 + kk%4
 		oct := make([]string, k)
